@@ -1,9 +1,47 @@
 """Declared attribute types of /repo classes (assumed on read, proved on write: obligation kind `type`).
 `rep:<kind>:<slot>` marks a representation container owned by the object (never aliased: checked by
-the escape lint in pyvc/lint.py on every run)."""
+the escape lint in pyvc/lint.py on every run).  `content` gives the key/value types of such a container
+and an optional link invariant (assumed on read)."""
+
+ENV = "none|bool|str"
 
 
 def register(reg):
-    reg.attr("KeyFile", filename="str", _KeyFile__key="opt:bytes", _KeyFile__refcount="int")
-    reg.attr("XorProvider", _XorProvider__key="bytes")
-    reg.attr("AesProvider", _AesProvider__key="bytes")
+    A = reg.attr
+    A("KeyFile", filename="str", _KeyFile__key="opt:bytes", _KeyFile__refcount="int")
+    A("XorProvider", _XorProvider__key="bytes")
+    A("AesProvider", _AesProvider__key="bytes")
+    A("BaseField", _key="str", _name="opt:str", _schema="opt:ref:Schema")
+    A("Field", required="bool", _default="any", validator="any", sensitive="bool", description="any", help="opt:str", env=ENV)
+    A("ConfigTypeField", config_type="cls:ConfigType")
+    A("Schema", _dynamic="bool", _fields="rep:dict:1", _env_prefix=ENV, _validators="rep:list:2")
+    A("Config", _schema="ref:Schema", _parent="opt:ref:Config", _container="opt:ref:ContainerValueMixin", _data="rep:dict:3",
+      _fields="rep:dict:4", _key="str", _Config__keyfile="opt:ref:KeyFile", _default_value_keys="rep:set:5")
+    A("ValidationError", config="any", field="any", exc="any", _ref_path="opt:str")
+    A("ListField", field="any", storage_type="any")
+    A("DictField", key_field="opt:ref:Field", value_field="opt:ref:Field", _use_proxy="bool")
+    A("ListProxy", cfg="ref:Config", list_field="ref:ListField")
+    A("DictProxy", cfg="ref:Config", dict_field="ref:DictField")
+    A("StringField", min_len="opt:int", max_len="opt:int", regex="opt:ref:Pattern", choices="opt:ref:list",
+      transform_case="opt:str", transform_strip="none|bool|str")
+    A("NumberField", type_cls="cls", min="none|int|float", max="none|int|float")
+    A("IPv4NetworkField", min_prefix_len="opt:int", max_prefix_len="opt:int")
+    A("HostnameField", allow_ipv4="bool", resolve="bool")
+    A("BytesField", encoding="str")
+    A("FilenameField", exists="none|bool|str", startdir="opt:str")
+    A("ChallengeField", algorithm="any")
+    A("SecureField", method="any")
+    A("VirtualField", getter="any", setter="any")
+    A("InstanceMethodField", method="any")
+    A("LogLevelField", levels="ref:list")
+    A("ApplicationModeField", modes="ref:list", create_helpers="bool")
+    A("JsonConfigFormat", pretty="any")
+    A("YamlConfigFormat", root_key="opt:str")
+    A("XmlConfigFormat", root_tag="str")
+    reg.content = {
+        ("Schema", "_fields"): {"k": "str", "v": "ref:BaseField", "link": "_key"},
+        ("Config", "_fields"): {"k": "str", "v": "ref:BaseField", "link": "_key"},
+        ("Config", "_data"): {"k": "str", "v": "any"},
+        ("Config", "_default_value_keys"): {"k": "str"},
+        ("Schema", "_validators"): {"v": "any"},
+    }
